@@ -199,6 +199,10 @@ class ModeController(MpfController):
     def _ball_starting(self, queue, **kwargs):
         del kwargs
         del queue
+        if not self.machine.game or not self.machine.game.player:
+            # the game mode was stopped (e.g. service mode entered) while an earlier handler held this queue event
+            return
+
         # a player who joined while a player_adding handler still holds its queue can be up before player_added
         # has been posted; the player variable then still has its default (0)
         for mode in self.machine.game.player.restart_modes_on_next_ball or []:
